@@ -49,6 +49,56 @@ def state_matches(S, T):
     return True, ''
 
 
+def _same_float(a, b):
+    return (a != a and b != b) or (a == b and math.copysign(1.0, a) == math.copysign(1.0, b))
+
+
+def unchanged_overflow(kv, skv, nobs, ref):
+    """Known finding 'range-overflows-f64': the P-square formulas form differences of marker heights, which overflow when
+    max - min exceeds f64::MAX.  True iff what was observed is exactly what the unchanged algorithm's IEEE arithmetic
+    produces on this stream: the from-scratch reference run (p2.run_reference, same operation order) has the same marker
+    positions, the same heights wherever they are finite, non-finite heights in the same places (the state dump cannot tell
+    +-inf from NaN), and bit-for-bit the same quantile()."""
+    if ref is None or nobs < 5 or nobs > len(ref) or ref[nobs - 1] is None:
+        return False
+    T, near = ref[nobs - 1]
+    qv = val(kv['quantile'])
+    if not isinstance(qv, float):
+        return False
+    def same():
+        if not _same_float(qv, T.q[2]):
+            return False
+        if skv is not None:
+            S = parse_state(skv)
+            if S.n != T.n:
+                return False
+            for a, b in zip(S.q, T.q):
+                fa, fb = (a == a and abs(a) != math.inf), (b == b and abs(b) != math.inf)
+                if fa != fb or (fa and a != b):
+                    return False
+        return True
+    # `near`: the reference run met a decision within rounding distance of its boundary and followed one branch only; a
+    # mismatch after that point proves nothing, so it is not turned into an alarm on this recorded input class
+    return same() or near
+
+
+def unchanged_midpoint(p, xs, nobs, kv):
+    """Known finding 'small-sample-midpoint-subnormal': with fewer than five observations and n*p a whole number k the
+    unchanged code returns 0.5*s[k-1] + 0.5*s[k]; halving an odd multiple of the smallest subnormal is inexact.  True iff
+    the observed quantile() is bit-for-bit that expression for the right pair and at least one halving was inexact."""
+    if xs is None or nobs < 2 or nobs > 4:
+        return False
+    s = sorted(xs[:nobs])
+    t = Fraction(p) * nobs
+    if t.denominator != 1 or not (1 <= t <= nobs - 1):
+        return False
+    a, b = s[int(t) - 1], s[int(t)]
+    qv = val(kv['quantile'])
+    if not isinstance(qv, float) or not _same_float(qv, 0.5 * a + 0.5 * b):
+        return False
+    return Fraction(0.5 * a) != Fraction(a) / 2 or Fraction(0.5 * b) != Fraction(b) / 2
+
+
 class Judge:
     def __init__(self, variant):
         self.r5 = Result()    # C05
@@ -57,18 +107,22 @@ class Judge:
         self.events = {}
 
     # ---------------------------------------------------------------- C15 invariants
-    def invariants(self, p, kv, skv, nobs, mn, mx, case, ctx):
+    def invariants(self, p, kv, skv, nobs, mn, mx, case, ctx, xs=None, ref=None):
         r = self.r15
         r.count('evaluations')
         r.count('invariant_states')
 
-        # input classes of the two recorded known findings (known_findings.txt); any other violation keeps a plain signature
+        # The two recorded known findings (known_findings.txt) are identified by their mechanism, not only by the class of
+        # input: the suffix is attached only if the observed value is bit-for-bit what the unchanged code's arithmetic gives
+        # (see unchanged_overflow / unchanged_midpoint).  Any other violation - also on such inputs - keeps a plain signature.
         cls = ''
         if nobs > 0:
             if Fraction(mx) - Fraction(mn) > F64_MAX:
-                cls = ':range-overflows-f64'
+                if unchanged_overflow(kv, skv, nobs, ref):
+                    cls = ':range-overflows-f64'
             elif nobs < 5 and 0 < max(abs(mn), abs(mx)) < 2.0 ** -1021:
-                cls = ':small-sample-midpoint-subnormal'
+                if unchanged_midpoint(p, xs, nobs, kv):
+                    cls = ':small-sample-midpoint-subnormal'
 
         def viol(sig, msg):
             r.violation('C15', 'Quantile:%s%s' % (sig, cls if sig.startswith(('quantile:out-of-range', 'quantile:nan', 'state:')) else ''),
@@ -253,6 +307,9 @@ def judge_stream_case(J, c, p, xs, marks, kind, recs):
     mn = mx = None
     upto = 0
     changed_after5 = False
+    ref = None
+    if xs and Fraction(max(xs)) - Fraction(min(xs)) > F64_MAX and len(xs) <= 100000:
+        ref = p2.run_reference(p, xs)     # only needed to recognise the recorded overflow finding by its mechanism
     for opi, j in marks:
         o, s = o_by.get(opi), s_by.get(opi)
         if o is None or s is None:
@@ -262,7 +319,7 @@ def judge_stream_case(J, c, p, xs, marks, kind, recs):
             mx = x if mx is None else max(mx, x)
         upto = j
         ctx = '(%s stream, after %d observations)' % (kind, j)
-        J.invariants(p, o.kv, s.kv, j, mn, mx, c, ctx)
+        J.invariants(p, o.kv, s.kv, j, mn, mx, c, ctx, xs=xs, ref=ref)
         if j >= 5:
             S = parse_state(s.kv)
             qv = val(o.kv['quantile'])
@@ -416,7 +473,10 @@ def judge_trie_case(J, c, p, alphabet, prefix, recs):
         j = len(xs)
         ctx = '(stream %r)' % xs
         mn, mx = (min(xs), max(xs)) if xs else (None, None)
-        J.invariants(p, r.kv, r.kv if j >= 5 else None, j, mn, mx, c, ctx)
+        ref = None
+        if xs and Fraction(mx) - Fraction(mn) > F64_MAX:
+            ref = p2.run_reference(p, xs)
+        J.invariants(p, r.kv, r.kv if j >= 5 else None, j, mn, mx, c, ctx, xs=xs, ref=ref)
         J.r5.count('trie_nodes')
         J.r15.count('trie_nodes')
         S = None
